@@ -597,7 +597,7 @@ def D2_publish_writes(ctx):
             if len(resets) != 1:
                 bad.append((p, 'Deleted: StorageReset not published'))
             b = pv.get('Basic', [])
-            if is_ben is False and not (len(b) == 1 and b[0].d['args'][2][0] == 'agg' and b[0].d['args'][2][2] == 'Basic' and variant_of(b[0].d['args'][2][3][0]) == 'None'):
+            if is_ben is not True and not (len(b) == 1 and b[0].d['args'][2][0] == 'agg' and b[0].d['args'][2][2] == 'Basic' and variant_of(b[0].d['args'][2][3][0]) == 'None'):
                 bad.append((p, 'Deleted: Basic(None) not published for a non-beneficiary account'))
             if is_ben is True and b:
                 pass  # publishing Basic(beneficiary) is allowed (not an obligation either way)
